@@ -1089,6 +1089,8 @@ class Interp:
             raise Unsupported(f"binary {op} on opaque value {a!r} / {b!r}")
         if op == "Mod" and isinstance(a, str):
             raise Unsupported("%-formatting")
+        if op == "Add" and isinstance(a, str) and isinstance(b, str) and (isinstance(a, SymStr) or isinstance(b, SymStr)):
+            return SymStr(str.__add__(a, b))  # a string with symbolic parts stays marked (never a dictionary key)
         if isinstance(a, list) and isinstance(b, list) and op == "Add":
             if inplace:
                 self.mutating(a)
